@@ -477,8 +477,14 @@ func writeEvidence(verif string, ps *PropSpec, tier string, seed, nObl, nDis, nC
 		"wall_s":      wall,
 		"violations":  violations,
 	}
-	os.MkdirAll(filepath.Join(verif, "evidence"), 0o755)
-	writeJSON(filepath.Join(verif, "evidence", ps.ID+".json"), ev)
+	// self-tests on deliberately broken trees must not overwrite the evidence
+	// of the unchanged tree
+	evdir := filepath.Join(verif, "evidence")
+	if d := os.Getenv("GOVC_EVIDENCE_DIR"); d != "" {
+		evdir = d
+	}
+	os.MkdirAll(evdir, 0o755)
+	writeJSON(filepath.Join(evdir, ps.ID+".json"), ev)
 }
 
 func keys(m map[string]bool) []string {
